@@ -14,6 +14,7 @@ RULES: Dict[str, str] = {
     'R-SHARED-EFFECTS': 'sa.rules.effects:run_effects',
     'R-POSTLEX-RESET': 'sa.rules.effects:run_postlex_reset',
     'R-ACCEPTS-PURE': 'sa.rules.effects:run_accepts_pure',
+    'R-LOAD-PURE': 'sa.rules.effects:run_load_pure',
     'R-INDENT-PAIRING': 'sa.rules.indenter:run_pairing',
     'R-SPLIT-TOTAL': 'sa.rules.indenter:run_split_total',
     'R-SERIAL-AGREE': 'sa.rules.serial:run_agree',
@@ -115,7 +116,7 @@ PROPERTIES.update({
               'state is reset (to its initial values) per stream.',
               'races inside user callbacks; interleaved consumption of two lex() generators sharing one Indenter.',
               'effect analysis over the typed call graph with an ownership (fresh/per-call/shared) dataflow'),
-    'C11': _p(['R-SERIAL-AGREE', 'R-SERIAL-NORM', 'R-SERIAL-NS', 'R-LOAD-REAPPLY', 'R-STANDALONE-CLOSURE'],
+    'C11': _p(['R-SERIAL-AGREE', 'R-SERIAL-NORM', 'R-SERIAL-NS', 'R-LOAD-REAPPLY', 'R-LOAD-PURE', 'R-STANDALONE-CLOSURE'],
               'a restored object has every attribute its post-load API reads, with the representation its constructor would have given it; '
               'the parse-table codec agrees on keys and tags; option-derived non-serialised state is re-derived at load; the generated '
               'stand-alone module is closed under name resolution for its supported API.',
@@ -133,13 +134,13 @@ PROPERTIES.update({
               'accepts() and the expected set recognises every name the loader can produce.',
               '"resume equals parse" as a value-level statement; stateful user post-lexers shared by forks.',
               'copy audit (argument freshness / mutability via the written-class set), CFG dominance, string-shape producer/consumer check'),
-    'C14': _p(['R-SCAN-PROGRESS', 'R-SHALLOW-FORK'],
+    'C14': _p(['R-SCAN-PROGRESS', 'R-SHALLOW-FORK', 'R-LEX-PRECEDENCE', 'R-POS-AFFINITY'],
               'the search position strictly increases per iteration (end of match / candidate + 1), ranges come from the matched tokens, the '
               'replay parser is fresh per match and fed exactly the accepted prefix then feed_eof(last), the exploratory parse runs without '
               'callbacks, candidates are searched among non-ignored terminals, the exploratory window carries the full text\'s line state.',
               'leftmost-longest, no-miss, equality with parse() of the substring.',
               'loop-progress rule on the CFG (must-pass-through an accepted position update), def-use of the yielded range'),
-    'C15': _p(['R-REPR-PARAM', 'R-WINDOW-BOUNDS'],
+    'C15': _p(['R-REPR-PARAM', 'R-WINDOW-BOUNDS', 'R-POS-AFFINITY'],
               'no representation-specific constant touches input text outside an isinstance(bytes) split; every regex call on a window passes '
               'pos and the window end; loops are bounded by the end; counters start from the window. One unrepaired known finding: the start '
               'side (look-behind, ^, \\b see the buffer before the window).',
